@@ -1,7 +1,10 @@
 package rtpconn
 
 import (
+	"context"
 	"fmt"
+	"os"
+	"path/filepath"
 	"slices"
 	"testing"
 	"time"
@@ -150,5 +153,28 @@ func TestVerif_C12_Regress_RedirectGhostMember(t *testing.T) {
 	}
 	if err := s.send(a, clientMessage{Type: "offer", Id: "u1", SDP: "garbage"}); err != nil {
 		t.Fatalf("offer closed the connection: %v", err)
+	}
+}
+
+// C13/C12 (fixed in /repo: "don't dereference a nil group in newUpConn"): a WHIP session that has been torn down
+// (kick, DELETE, autokick) when its media offer is processed has no group; the offer must fail, not crash.
+func TestVerif_C13_Regress_WhipOfferAfterClose(t *testing.T) {
+	simSetup()
+	gname := c13Group(map[string]any{"wildcard-user": map[string]any{"password": map[string]any{"type": "wildcard"}, "permissions": "present"}})
+	defer os.Remove(filepath.Join(group.Directory, gname+".json"))
+	g, err := group.Add(gname, nil)
+	if err != nil {
+		t.Fatalf("VERIF-HARNESS-ERROR: %v", err)
+	}
+	w := NewWhipClient(g, "W", "tok", nil)
+	u := "whip"
+	if _, err := group.AddClient(gname, w, group.ClientCredentials{Username: &u, Password: "p"}); err != nil {
+		t.Fatalf("VERIF-HARNESS-ERROR: %v", err)
+	}
+	w.Close()
+	ctx, cancel := context.WithTimeout(context.Background(), 5*time.Second)
+	defer cancel()
+	if _, err := w.NewConnection(ctx, []byte(c13WhipOffer())); err == nil {
+		t.Fatalf("C13: a closed WHIP session accepted a media offer")
 	}
 }
